@@ -35,6 +35,11 @@ func uncompressReaderData(compression string, in io.ReadCloser, estsize int64) (
 		if len(data) == 0 {
 			return nil, fmt.Errorf("received 0 LZ4 compressed bytes")
 		}
+		// The expected size comes from the request URL.  LZ4 cannot expand data more than 255 times,
+		// so don't allocate a size that the payload could not uncompress to.
+		if estsize <= 0 || estsize/255 > int64(len(data)) {
+			return nil, fmt.Errorf("received %d LZ4 compressed bytes, which cannot uncompress to the expected %d bytes", len(data), estsize)
+		}
 		tlog = dvid.NewTimeLog()
 		uncompressed := make([]byte, estsize)
 		// The lz4 binding does not return the number of bytes it decoded, so a payload that
